@@ -165,7 +165,9 @@ func (x *Exec) checkWire(o *Obs, reqs []*reqInfo, emits []emit, dels []deliver, 
 			}
 			rest := d.Data[4+l:]
 			if len(rest) > 3 || (4+l+len(rest))%4 != 0 && len(rest) != 0 || !allZero(rest) {
-				x.fail([]string{"C05", "C11"}, "channeldata-padding", "%s: ChannelData with %d payload bytes is followed by %d trailing bytes %x", ctx, l, len(rest), rest)
+				// (non-zero padding is bytes the client receives that the bound peer never sent:
+				// leftovers of another datagram, possibly one that had to be discarded - C02)
+				x.fail([]string{"C05", "C11", "C02"}, "channeldata-padding", "%s: ChannelData with %d payload bytes is followed by %d trailing bytes %x", ctx, l, len(rest), rest)
 
 				return
 			}
